@@ -5,7 +5,7 @@ import numpy as np, pandas as pd
 from core import Result
 import proto, gen, implutil
 
-THEOREMS = ['C16_relabel', 'C16_edit', 'C16_frame', 'C16_value', 'C16_grow', 'C16_connected', 'C16_routing']
+THEOREMS = ['C16_known_finding_witness', 'C16_relabel', 'C16_edit', 'C16_frame', 'C16_value', 'C16_grow', 'C16_connected', 'C16_routing']
 RULE = ("cycle tables produced by compute_features(burst_method='cycles') on generated signals (bursty / noisy families, both centrings) with a grid of thresholds, then "
         "recompute_edges with the same thresholds, with every *_threshold lowered by r in {0.1, 0.3}, with one threshold set to 0, through the function and through "
         "Bycycle.recompute_edges(reduction) (also on an object with a history: fitted and edge-recomputed on another recording, then loaded), one table in five WITHOUT sample columns (return_samples=False); plus synthetic tables with prescribed burst layouts (bursts at distance 1, at the table ends); judge: input table untouched, only "
@@ -17,6 +17,11 @@ BATCH = 60
 FE = ['amp_fraction', 'amp_consistency', 'period_consistency', 'monotonicity']
 KEYS = [f + '_threshold' for f in FE] + ['min_n_cycles']
 DEF = {'amp_fraction_threshold': 0.0, 'amp_consistency_threshold': 0.5, 'period_consistency_threshold': 0.5, 'monotonicity_threshold': 0.8, 'min_n_cycles': 3}
+
+NAN = float('nan')
+WITNESS = [[1, 1, 5, 0.5, 1, NAN, NAN, False], [2, 1, 5, 0.5, 1, 0.5, 1, False], [4, 4, 5, 0.5, 1, 1, 1, True], [4, 4, 5, 0.5, 1, 1, 1, True], [4, 2, 5, 0.5, 1, 0.5, 1, False],
+           [1, 1, 5, 0.5, 1, NAN, NAN, False]]
+WITNESS_TH = {'amp_fraction_threshold': 0.0, 'amp_consistency_threshold': 0.4, 'period_consistency_threshold': 0.5, 'monotonicity_threshold': 0.5, 'min_n_cycles': 2}
 
 def regen_slots():
     import slots
@@ -42,7 +47,9 @@ def _close(fl, atom):
 
 def corpus(ctx):
     return [dict(kind='signal', seed=21, center='peak', th0={'amp_fraction_threshold': 0.0, 'amp_consistency_threshold': 0.5, 'period_consistency_threshold': 0.5,
-                                                               'monotonicity_threshold': 0.4, 'min_n_cycles': 3}, mode='same', via='func')]   # pre-fix C: nothing was written
+                                                               'monotonicity_threshold': 0.4, 'min_n_cycles': 3}, mode='same', via='func'),   # pre-fix C: nothing was written
+            # the witness of C16_known_finding_witness, WITH its sample column (the statement holds) and WITHOUT it (the known finding, replayed on the real code)
+            dict(kind='table', seed=1, pc=True, nosamp=False, rows=WITNESS, th=WITNESS_TH), dict(kind='table', seed=2, pc=True, nosamp=True, rows=WITNESS, th=WITNESS_TH)]
 
 def generate(ctx):
     rng = ctx.rng
@@ -63,6 +70,15 @@ def generate(ctx):
     return cases
 
 def _make_table(c):
+    if 'rows' in c:      # an explicit table (the witness of the Lean theorem C16_known_finding_witness)
+        rows = c['rows']; n = len(rows)
+        df = pd.DataFrame({'volt_rise': [float(r[0]) for r in rows], 'volt_decay': [float(r[1]) for r in rows], 'period': [float(r[2]) for r in rows],
+                           'amp_fraction': [float(r[3]) for r in rows], 'monotonicity': [float(r[4]) for r in rows],
+                           'amp_consistency': [float(r[5]) for r in rows], 'period_consistency': [float(r[6]) for r in rows]})
+        df['volt_amp'] = (df.volt_rise + df.volt_decay) / 2
+        if not c.get('nosamp'): df['sample_peak' if c['pc'] else 'sample_trough'] = np.arange(n)
+        df['is_burst'] = [bool(r[7]) for r in rows]
+        return df, dict(c['th'])
     r = np.random.default_rng(c['seed'])
     n = c['n']; b = np.array(proto.dec_bits(c['b']))
     df = pd.DataFrame({'volt_rise': r.integers(1, 6, n).astype(float), 'volt_decay': r.integers(1, 6, n).astype(float), 'period': r.integers(3, 9, n).astype(float),
